@@ -1650,11 +1650,35 @@ impl R2 {
             }
             "increase" | "decrease" => {
                 // collateral on the chosen side, position side from the parity of `a`; leverage 2
-                let is_long = o.a % 2 == 1;
                 let inc = o.op == "increase";
-                let col = self.units(side_tok, usd);
-                let size = (usd as u128) * 2 * 100_000_000_000_000_000_000u128;
-                self.flow_position(w, rec, &user, o.m, &nonce, inc, is_long, o.side_long, if inc { col } else { col / 2 }, if inc { size } else { size / 2 });
+                let (mut is_long, mut col_long) = (o.a % 2 == 1, o.side_long);
+                let mut col = self.units(side_tok, usd);
+                let mut size = (usd as u128) * 2 * 100_000_000_000_000_000_000u128;
+                let mut pos_user = user;
+                if !inc {
+                    // decrease an existing position of this user in this market, if there is one:
+                    // half of it (odd `a`) or all of it (even `a`)
+                    for (u, l, c) in self.users.iter().flat_map(|u| [(true, true), (true, false), (false, true), (false, false)].map(|(l, c)| (*u, l, c))) {
+                        let ct = self.toks[if c { m.long } else { m.short }].mint;
+                        let pda = self.position_pda(&u, m, &ct, l);
+                        let pos: Option<gmsol_store::states::Position> = match w.account(&pda) {
+                            Some(a) if a.owner == gmsol_store::ID => w.account_data(&pda),
+                            _ => None,
+                        };
+                        if let Some(p) = pos {
+                            if p.state.size_in_usd > 0 {
+                                pos_user = u;
+                                is_long = l;
+                                col_long = c;
+                                let half = o.a % 2 == 1;
+                                size = if half { p.state.size_in_usd / 2 } else { p.state.size_in_usd };
+                                col = if half { (p.state.collateral_amount / 4) as u64 } else { 0 };
+                                break;
+                            }
+                        }
+                    }
+                }
+                self.flow_position(w, rec, &pos_user, o.m, &nonce, inc, is_long, col_long, col, size);
             }
             "swap_path" => {
                 let out = o.tok_out.or_else(|| self.walk(o.tok, &o.path)).unwrap_or(o.tok);
